@@ -116,14 +116,14 @@ def runCase (c : Case) : String :=
       (Float.ofBits Gen.Static.dopri5_uround) (Float.ofBits Gen.Static.dopri5_safety_factor) (Float.ofBits Gen.Static.dopri5_scale_min)
       (Float.ofBits Gen.Static.dopri5_scale_max) (Float.ofBits Gen.Static.dopri5_beta) hmax c.nmax Gen.Static.dopri5_stiff_test c.dense
     fmtRes n c (hSolve P (dopri5Kernel atol rtol) f ob 0 c.x0 y0 c.first
-      (hinitCall atol rtol c.x0 y0 posneg (Float.rustMin hmax span) 5) (Float.ofBits Gen.Static.dopri5_facold0) 0.0 fuel)
+      (hinitCall atol rtol c.x0 y0 posneg (Float.rustMin hmax span) Gen.Static.dopri5_hinitOrder) (Float.ofBits Gen.Static.dopri5_facold0) 0.0 fuel)
   else if c.method == "DOP853" then
     let hmax := (c.maxstep.map Float.abs).getD span
     let P : HParams Float n := dop853Params { hl with stiffLimit := Float.ofBits Gen.Static.dop853_stiffLimit } c.xend posneg
       (Float.ofBits Gen.Static.dop853_uround) (Float.ofBits Gen.Static.dop853_safety_factor) (Float.ofBits Gen.Static.dop853_scale_min)
       (Float.ofBits Gen.Static.dop853_scale_max) (Float.ofBits Gen.Static.dop853_beta) hmax c.nmax Gen.Static.dop853_stiff_test c.dense
     fmtRes n c (hSolve P (dop853Kernel atol rtol) f ob 0 c.x0 y0 c.first
-      (hinitCall atol rtol c.x0 y0 posneg (Float.rustMin hmax span) 8) (Float.ofBits Gen.Static.dop853_facold0) 0.0 fuel)
+      (hinitCall atol rtol c.x0 y0 posneg (Float.rustMin hmax span) Gen.Static.dop853_hinitOrder) (Float.ofBits Gen.Static.dop853_facold0) 0.0 fuel)
   else if c.method == "RK23" then
     let hmax := (c.maxstep.map Float.abs).getD span
     let P : R23Params Float n := mkR23 c n posneg hmax atol rtol
